@@ -23,6 +23,15 @@ extern "C" {
 #include "Skinny64.h"
 #include "Mantis8.h"
 #include "CTR.h"
+#include <new>
+#include <cstdlib>
+#include <string.h>
+/* objects of the port are created with new: C++ does not clear that memory, so the harness hands out storage filled
+ * with a pattern (a member that a constructor or setKey forgets to set then holds 0xA5, not a convenient zero) */
+void *operator new(std::size_t n) { void *p = std::malloc(n ? n : 1); if (!p) std::abort(); memset(p, 0xA5, n); return p; }
+void operator delete(void *p) noexcept { std::free(p); }
+void operator delete(void *p, std::size_t) noexcept { std::free(p); }
+
 
 static uint8_t KEYS[2][48];
 
